@@ -72,6 +72,36 @@ Theorem request_roundtrip_compressed : forall r fuel,
 Proof. exact PluginFacts.request_roundtrip_compressed. Qed.
 Print Assumptions request_roundtrip_compressed.
 
+(* the same two theorems with the encodability hypothesis replaced by a decidable predicate on
+   the request itself: wf_request r = every string and list shorter than 2^31 (a Filename also
+   leaves room for the 12-byte stub prefix), field ids / include indices within i32, enum values
+   and integer constants within i64, double bit patterns within 64 bit *)
+Theorem wf_request_encodable : forall r, wf_request r = true -> wfb (enc_request r) = true.
+Proof. exact PluginFacts.wf_request_encodable. Qed.
+Print Assumptions wf_request_encodable.
+
+Theorem request_roundtrip_wf : forall r fuel,
+  wt_ast (rq_ast r) = true -> wf_request r = true ->
+  unmarshal_request fuel (marshal_request r) = UOk (norm_request r).
+Proof. exact PluginFacts.request_roundtrip_wf. Qed.
+Print Assumptions request_roundtrip_wf.
+
+Theorem request_roundtrip_compressed_wf : forall r fuel,
+  wf_graph (rq_ast r) -> wt_ast (rq_ast r) = true -> wf_request r = true -> (height (rq_ast r) <= fuel)%nat ->
+  unmarshal_request fuel (marshal_request_compressed r) = UOk (norm_request r).
+Proof. exact PluginFacts.request_roundtrip_compressed_wf. Qed.
+Print Assumptions request_roundtrip_compressed_wf.
+
+(* ---------------------------------------------------------------- response codec *)
+
+(* decode (encode r) = r for every response (Response.FastRead / Generated.FastRead as modelled
+   statement by statement): error set or unset, files, insertion-point patches, warnings, each
+   present or absent; whatever bytes follow the encoding are not looked at *)
+Theorem response_roundtrip : forall r rest, response_ok r = true ->
+  unmarshal_response (marshal_response r ++ rest) = Some r.
+Proof. exact PluginFacts.response_roundtrip. Qed.
+Print Assumptions response_roundtrip.
+
 (* ---------------------------------------------------------------- option strings *)
 
 Theorem compact_roundtrip : forall d, desc_ok d = true -> parse_compact (render d) = Some d.
@@ -118,6 +148,37 @@ Theorem run_plugins_fail : forall m shown name pr rest ws,
 Proof. exact PluginFacts.run_plugins_fail. Qed.
 Print Assumptions run_plugins_fail.
 
+(* ---------------------------------------------------------------- the plugin loop of Generate *)
+
+(* Whatever the external processes do ([run]), whatever the option lists are (empty ones
+   included) and however many plugins there are: the i-th request sent goes to the i-th plugin
+   of the command line, its PluginParameters are the pack of THAT plugin's options, and every
+   other part (version, generator parameters, language, output path, recursive flag, AST) is the
+   compiler's — nothing of an earlier plugin's options survives in the shared request object. *)
+Theorem generate_loop_sends_own_options : forall run ds m shown req i name q,
+  nth_error (snd (generate_loop run m shown req ds)) i = Some (name, q) ->
+  exists d, nth_error ds i = Some d /\ name = plugin_name d /\
+            rq_plugin_params q = pack (d_opts d) /\
+            rq_version q = rq_version req /\ rq_gen_params q = rq_gen_params req /\
+            rq_language q = rq_language req /\ rq_output_path q = rq_output_path req /\
+            rq_recursive q = rq_recursive req /\ rq_ast q = rq_ast req.
+Proof. exact PluginFacts.generate_loop_sends_own_options. Qed.
+Print Assumptions generate_loop_sends_own_options.
+
+(* the loop's result is run_plugins over the answers to exactly those requests *)
+Theorem generate_loop_result : forall run ds m shown req,
+  fst (generate_loop run m shown req ds) =
+  run_plugins m shown (map (fun d => (plugin_name d, run (plugin_name d) (snd (sent_to req d)))) ds).
+Proof. exact PluginFacts.generate_loop_result. Qed.
+Print Assumptions generate_loop_result.
+
+(* a successful run invoked every plugin, in command-line order *)
+Theorem generate_loop_all_invoked : forall run ds m shown req shown' m',
+  fst (generate_loop run m shown req ds) = ROk shown' m' ->
+  snd (generate_loop run m shown req ds) = map (sent_to req) ds.
+Proof. exact PluginFacts.generate_loop_all_invoked. Qed.
+Print Assumptions generate_loop_all_invoked.
+
 (* ---------------------------------------------------------------- the hypotheses are satisfiable *)
 
 Local Open Scope string_scope.
@@ -139,6 +200,59 @@ Example ex_wt : wt_ast ex_x = true /\ wfb (enc_request ex_req) = true /\
                 wfb (enc_request (with_ast ex_req (compress_top ex_x))) = true.
 Proof. vm_compute. auto. Qed.
 
+
+(* a richer request: every definition kind, optional fields set and unset, a diamond *)
+Definition ex_ty_map :=
+  Ty (B "map") (Some (Ty (B "string") None None [] [] CatString None None))
+     (Some (Ty (B "y.Color") None None [] [Anno (B "k") [B "v1"; B "v2"]] CatEnum (Some (Ref (B "Color") 1)) (Some false)))
+     (B "std::map") [] CatMap None None.
+Definition ex_field := Field 3 (B "m") ReqOptional ex_ty_map (Some (CMap [(CLiteral (B "a"), CIdent (B "y.Color.RED") (Some (Extra true 1 (B "RED") (B "Color"))))])) [Anno (B "go.tag") [B "x"]] (B "// c").
+Definition ex_rich :=
+  Ast (File (B "dir/x.thrift") [Include (B "z.thrift") None (Some false); Include (B "y.thrift") None (Some true)] [B "<vector>"]
+        [Namespace (B "go") (B "a.b") [Anno (B "n") []]]
+        [Typedef ex_ty_map (B "M") [] []]
+        [Constant (B "c") (ty_named (B "double")) (CList [CDouble 4607182418800017408%N; CInt (-9223372036854775808); CList []]) [] (B "// const")]
+        [Enum (B "E") [EnumValue (B "A") (-1) [] []; EnumValue (B "B") 9223372036854775807 [Anno (B "a") [B "b"]] []] [] []]
+        [StructLike SKStruct (B "S") [ex_field; Field (-32768) (B "r") ReqRequired (ty_named (B "i64")) None [] []] [] []]
+        [StructLike SKUnion (B "U") [Field 1 (B "u") ReqOptional (ty_named (B "bool")) None [] []] [] []]
+        [StructLike SKException (B "X") [] [Anno (B "e") [B "1"]] []]
+        [Service (B "Svc") (B "y.Base") [Function (B "f") true true (ty_named (B "void")) [ex_field] [] [] [];
+                                          Function (B "g") false false ex_ty_map [] [Field 1 (B "e") ReqOptional (ty_named (B "X")) None [] []] [] []]
+                 [] (Some (Ref (B "Base") 1)) []]
+        (Some [(B "E", CatEnum); (B "M", CatTypedef); (B "S", CatStruct)]))
+      [Some ex_z; Some ex_y].
+Definition ex_rich_req := mkreq (B "0.4.1") [B "naming_style=golint"; B "gen_setter="] [B "="; B "k=v=w"] (B "go") (B "./gen out") false ex_rich.
+
+Example ex_rich_ok :
+  wf_request ex_rich_req = true /\ wt_ast ex_rich = true /\
+  unmarshal_request 3 (marshal_request ex_rich_req) = UOk (norm_request ex_rich_req) /\
+  unmarshal_request 3 (marshal_request_compressed ex_rich_req) = UOk (norm_request ex_rich_req).
+Proof. repeat split; vm_compute; reflexivity. Qed.
+
+(* the predicate is not trivially true: a field id outside i32 is refused *)
+Example ex_not_wf :
+  wf_request (mkreq [] [] [] [] [] false
+    (Ast (File (B "a.thrift") [] [] [] [] [] [] [StructLike SKStruct (B "S") [Field 2147483648 (B "f") ReqDefault (ty_named (B "i32")) None [] []] [] []]
+               [] [] [] None) [])) = false.
+Proof. vm_compute. reflexivity. Qed.
+
+Definition ex_resp := mkresp None
+  (Some [mkgenerated (B "head @@thriftgo_insertion_point(p) tail") (Some (B "/o/a.txt")) None;
+         mkgenerated (B "patch") None (Some (B "p"));
+         mkgenerated (B "named patch") (Some (B "/o/a.txt")) (Some (B "p"))])
+  (Some [B "w1"; []]).
+Example ex_response_ok : response_ok ex_resp = true /\ response_ok (mkresp (Some (B "boom")) None None) = true /\
+  unmarshal_response ((marshal_response ex_resp ++ B "trailing")%list) = Some ex_resp.
+Proof. repeat split; vm_compute; reflexivity. Qed.
+
+(* three plugins, the middle one without options: it is sent an empty list, not its predecessor's *)
+Example ex_loop :
+  let ds := [mkdesc (B "first=/p1") [mkopt (B "alpha") (B "1"); mkopt (B "beta") []]; mkdesc (B "second=/p2") [];
+             mkdesc (B "third") [mkopt (B "gamma") (B "3")]] in
+  let run := fun (_ : bytes) (_ : request) => Exited 0 (marshal_response (mkresp None None None)) [] in
+  map (fun nq => (fst nq, rq_plugin_params (snd nq))) (snd (generate_loop run fm0 [] ex_req ds)) =
+  [(B "first", [B "alpha=1"; B "beta="]); (B "second", []); (B "third", [B "gamma=3"])].
+Proof. vm_compute. reflexivity. Qed.
 
 Example ex_wf_graph : wf_graph ex_x.
 Proof.
